@@ -462,6 +462,12 @@ void canonPerm(const World &w, const int perm[3], std::string &out)
     // the prototype blob is never written; record its fields to notice if it ever is
     put32(out, proto->capacity);
     put32(out, proto->size);
+    // The reference models are part of the state (they equal the contents whenever the per-step check passed,
+    // so this adds no states for a correct implementation, but keeps (real, model) pairs apart otherwise).
+    for (int q = 0; q < 3; ++q) {
+        put32(out, (uint32_t)w.m[perm[q]].size());
+        out += w.m[perm[q]];
+    }
 }
 
 void canon(const World &w, std::string &out)
